@@ -114,7 +114,7 @@ def cases(rng, tier, X):
                 glue_frame(rng, body, 'hello')
             elif r < 0.12:
                 glue_frame(rng, body, 'discover')
-            body.append('tick 0 1 0 wired')
+            body.append('tick 0 1 0 wired' if rng.random() < 0.8 else 'tickj 0 1 0 wired %d %d' % (rng.choice([1, 2]), rng.choice([1, 3, 40, 120])))
         for o in body:
             if o == 'GLUE_DISCOVER':
                 ops += rng.choice([['band init 1', 'band choose 1'], ['band begun 1']]) + ['fsm step 1 3']
